@@ -12,6 +12,7 @@ import (
 	"io"
 	"math/rand"
 	"net"
+	"strconv"
 	"strings"
 	"sync"
 	"time"
@@ -103,8 +104,14 @@ func c16setup() {
 				}
 			}
 			b, _ := rm.Pack()
-			if len(lp) > 3 && lp[3] == "cut" && len(b) > 512 {
-				b = b[:512]
+			if len(lp) > 3 && strings.HasPrefix(lp[3], "cut") { // "cut": at 512 octets; "cut<N>": at N octets (N >= 12)
+				at := 512
+				if n, err := strconv.Atoi(lp[3][3:]); err == nil && n >= 12 {
+					at = n
+				}
+				if len(b) > at {
+					b = b[:at]
+				}
 			}
 			c16.uc.WriteToUDP(b, addr)
 		}
@@ -249,6 +256,13 @@ func c16gen(r *rand.Rand, thorough bool, emit func(c, cat string)) {
 		tag++
 		emit(fmt.Sprintf("q=%d u=ok:%d:1:cut t=%s", q, tag, legs(1)), "ucut-t1")
 	}
+	// the cut may fall anywhere from the end of the header on (a server with a small limit, a path that cuts
+	// datagrams): every length from 12 octets up is a truncated reply and has to be retried over TCP
+	for _, at := range []int{12, 13, 29, 100, 511, 513, 12 + r.Intn(500), 12 + r.Intn(500), 513 + r.Intn(3500)} {
+		q = 1 + r.Intn(1<<20)
+		tag++
+		emit(fmt.Sprintf("q=%d u=ok:%d:1:cut%d t=%s", q, tag, at, legs(1)), "ucutN-t1")
+	}
 	for i := 0; i < 2+n/40; i++ { // a TCP leg that never answers: the caller gets the leg's error at its deadline
 		q = 1 + r.Intn(1<<20)
 		emit(fmt.Sprintf("q=%d u=%s t=hang", q, legs(2)), "u2-thang")
@@ -266,7 +280,7 @@ func c16gen(r *rand.Rand, thorough bool, emit func(c, cat string)) {
 // fallbackseq: several truncated queries in a row on ONE upstream; with close=1 the TCP server closes the
 // connection after every reply, so the 2nd, 3rd … query finds a stale pooled TCP connection (the leg must retry
 // on a fresh one and the caller must still get the TCP reply, not an error and not the truncated message).
-// case : seq=<k> par=<p> close=<0|1> gap=<ms> q=<nonce>      out : res=<ok|tc|err|wrong>,… (k rounds of p concurrent queries)
+// case : seq=<k> par=<p> close=<0|1> gap=<ms> [fail=<f>] q=<nonce>      out : res=<ok|tc|err|wrong>,… (k rounds of p concurrent queries)
 func c16runSeq(cs string) string {
 	m := kv(cs)
 	k, gap, par := atoi(m["seq"]), atoi(m["gap"]), atoi(m["par"])
@@ -284,7 +298,15 @@ func c16runSeq(cs string) string {
 	}
 	defer up.Close()
 	res := make([]string, k*par)
+	fail := atoi(m["fail"]) // during the first `fail` rounds the TCP server closes without replying
 	for i := 0; i < k; i++ {
+		c16.mu.Lock()
+		if i < fail {
+			c16.t = "err"
+		} else {
+			c16.t = "ok:auto:0"
+		}
+		c16.mu.Unlock()
 		var wg sync.WaitGroup
 		for j := 0; j < par; j++ {
 			idx := i*par + j
@@ -333,6 +355,12 @@ func c16genSeq(r *rand.Rand, thorough bool, emit func(c, cat string)) {
 	}
 	for i := 0; i < n; i++ {
 		emit(fmt.Sprintf("seq=%d par=%d close=%d gap=%d q=%d", 2+r.Intn(3), []int{1, 1, 4, 8}[r.Intn(4)], i%2, []int{5, 30, 100}[r.Intn(3)], 1+r.Intn(1<<20)), fmt.Sprintf("close%d", i%2))
+	}
+	// a TCP leg that fails for a while and then works again: the upstream must try it again for the very next
+	// truncated reply (no memory of the failure)
+	for i := 0; i < 2+n/8; i++ {
+		f := 1 + r.Intn(2)
+		emit(fmt.Sprintf("seq=%d par=%d close=%d gap=%d fail=%d q=%d", f+1+r.Intn(3), []int{1, 1, 3}[r.Intn(3)], i%2, []int{5, 30, 100}[r.Intn(3)], f, 1+r.Intn(1<<20)), "tcpfail-then-ok")
 	}
 }
 
